@@ -133,3 +133,158 @@ def vocabulary(e):
             elif x.op == "sym":
                 syms.add(x.args[0])
     return calls, syms
+
+
+def _seq_items(e):
+    if is_call(e, "list", "tuple"):
+        return list(e.args[1:])
+    return None
+
+
+def fold_seq(e):
+    """Concrete evaluation of the small sequence computations that index arithmetic is written with, once a scenario has
+    made their sizes concrete: [x] * 3, list element stores, tuple(list), comprehensions over range(3) with decidable
+    filters, len / getitem of literal sequences."""
+    from fractions import Fraction
+
+    def as_int(x):
+        if isinstance(x, E) and x.is_const and isinstance(x.value, Fraction) and x.value.denominator == 1:
+            return int(x.value)
+        return None
+
+    def fn(x):
+        if x.op == "add" and len(x.args) >= 2 and all(_seq_items(a) is not None for a in x.args) and len({a.args[0] for a in x.args}) == 1:
+            # concatenation of literal sequences (used for index tuples, where the order of the parts is the order of the axes)
+            parts = sorted(x.args, key=lambda a: [as_int(i) if as_int(i) is not None else 1 << 30 for i in a.args[1:]])
+            return S.call(x.args[0].args[0], *[i for a in parts for i in a.args[1:]])
+        if x.op == "mul" and len(x.args) == 2:
+            for a, b in ((x.args[0], x.args[1]), (x.args[1], x.args[0])):
+                n, items = as_int(a), _seq_items(b)
+                if n is not None and items is not None and 0 <= n <= 16:
+                    return S.call(b.args[0], *(items * n))
+            return None
+        if x.op != "call":
+            return None
+        nm = x.args[0]
+        if nm == "stored" and _seq_items(x.args[1]) is not None and len(x.args) >= 4 and (len(x.args) - 2) % 2 == 0:
+            items = _seq_items(x.args[1])
+            pairs = list(zip(x.args[2::2], x.args[3::2]))
+            for i_, v in pairs:
+                i = as_int(i_)
+                if i is None or not (-len(items) <= i < len(items)):
+                    return None
+                items[i] = v
+            return S.call(x.args[1].args[0], *items)
+        if nm in ("tuple", "list") and len(x.args) == 2 and _seq_items(x.args[1]) is not None:
+            return S.call(nm, *_seq_items(x.args[1]))
+        if nm in ("tuple", "list") and len(x.args) == 2 and is_call(x.args[1], "range"):
+            r = [as_int(a) for a in x.args[1].args[1:]]
+            if r and all(v is not None for v in r) and len(r) <= 3:
+                vals = list(range(*r))
+                if len(vals) <= 16:
+                    return S.call(nm, *[S.lift(v) for v in vals])
+        if nm == "len" and len(x.args) == 2 and _seq_items(x.args[1]) is not None:
+            return S.lift(len(_seq_items(x.args[1])))
+        if nm == "getitem" and len(x.args) == 3 and _seq_items(x.args[1]) is not None and as_int(x.args[2]) is not None:
+            items, i = _seq_items(x.args[1]), as_int(x.args[2])
+            if -len(items) <= i < len(items):
+                return items[i]
+        if nm == "comp" and len(x.args) >= 3:
+            elt, it, conds = x.args[1], x.args[2], list(x.args[3:])
+            vals = None
+            if is_call(it, "range") and len(it.args) == 2 and as_int(it.args[1]) is not None and 0 <= as_int(it.args[1]) <= 16:
+                vals = [S.lift(k) for k in range(as_int(it.args[1]))]
+            elif _seq_items(it) is not None:
+                vals = _seq_items(it)
+            if vals is None:
+                return None
+            ats = {s for y in [elt] + conds for s in S.symbols(y) if s.startswith("@")}
+            if len(ats) > 1:
+                return None
+            var = next(iter(ats), None)
+            out = []
+            for v in vals:
+                m = {var: v} if var else {}
+                cs = [fold_seq(S.subst(c, m)) for c in conds]
+                if any(not (c.is_const) for c in cs):
+                    return None
+                if all(S.truthy(c) for c in cs):
+                    out.append(fold_seq(S.subst(elt, m)))
+            return S.call("list", *out)
+        return None
+
+    out = e
+    for _ in range(6):
+        nxt = transform(out, fn)
+        if nxt == out:
+            break
+        out = nxt
+    return out
+
+
+_ARITH = ("add", "mul", "neg", "truediv", "pow", "const")
+
+
+def atomise(*exprs):
+    """Replace every maximal non-arithmetic sub-term by a symbol (the same term gets the same symbol in all expressions), so
+    that sym.compare can decide the arithmetic skeleton: equality in normal form, or a witness over the atoms."""
+    table = {}
+
+    def go(e):
+        if not isinstance(e, E):
+            return e
+        if e.op in _ARITH:
+            if e.op == "const":
+                return e
+            return S.rebuild(e.op, [go(a) if isinstance(a, E) else a for a in e.args])
+        if e.op == "sym":
+            return e
+        key = S.show(e)
+        if key not in table:
+            table[key] = S.sym("atom%d" % len(table))
+        return table[key]
+
+    return [go(e) for e in exprs], {v.args[0]: k for k, v in table.items()}
+
+
+def _pure_reshape_index(idx):
+    items = _seq_items(idx)
+    if items is None:
+        return False
+    for i in items:
+        if i.is_const and i.value is None:
+            continue
+        if is_call(i, "slice") and all(a.is_const and a.value is None for a in i.args[1:]):
+            continue
+        return False
+    return True
+
+
+def distribute_reshape(e):
+    """x[None, :, None] of an element-wise expression is the element-wise expression of the re-shaped operands"""
+    def fn(x):
+        if is_call(x, "getitem") and len(x.args) == 3 and _pure_reshape_index(x.args[2]):
+            inner, idx = x.args[1], x.args[2]
+            if inner.op in ("add", "mul", "neg", "truediv", "pow") and not inner.is_const:
+                parts = []
+                for a in inner.args:
+                    if isinstance(a, E) and not a.is_const:
+                        parts.append(fn(S.call("getitem", a, idx)) or S.call("getitem", a, idx))
+                    else:
+                        parts.append(a)
+                return S.rebuild(inner.op, parts)
+        return None
+    return transform(e, fn)
+
+
+def same_value(got, want):
+    """'equal' | 'differ' | 'unknown' for two condition-free values, arithmetic decided over their non-arithmetic atoms"""
+    if got == want:
+        return "equal", None
+    (g, w), names = atomise(distribute_reshape(got), distribute_reshape(want))
+    res = S.compare(g, w, domain={})
+    if res["verdict"] == "equal":
+        return "equal", None
+    if res["verdict"] == "differ":
+        return "differ", {names.get(k, k): v for k, v in res.get("witness", {}).items()}
+    return "unknown", res.get("reason")
